@@ -8,11 +8,13 @@ require (
 	github.com/TheCacophonyProject/lepton3 v0.0.0-20210324024142-003e5546e30f
 	github.com/TheCacophonyProject/thermal-recorder v0.0.0
 	github.com/TheCacophonyProject/window v0.0.0-20200312071457-7fc8799fdce7
+	github.com/juju/ratelimit v1.0.1
 	verifkit v0.0.0
 )
 
 require (
 	github.com/fsnotify/fsnotify v1.4.7 // indirect
+	github.com/godbus/dbus v4.1.0+incompatible // indirect
 	github.com/gofrs/flock v0.7.1 // indirect
 	github.com/hashicorp/hcl v1.0.0 // indirect
 	github.com/magiconair/properties v1.8.1 // indirect
